@@ -5,6 +5,7 @@
  *   X id=<n> single=<0|1> con=<0|1> cmtu=<client mtu> smtu=<server mtu> cszx=<-1|0..6> sszx=<-1|0..6> gap=<ms>
  *        cszx: block size the client asks for (Block1/Block2 option in the first request); sszx: server's max block size
  *        gap:  virtual ms between the submissions of successive transfers (0 = concurrent)
+ *        slow=<ms>: every datagram takes that long (no fault): a long transfer lasts longer than MAX_TRANSMIT_WAIT although every exchange is prompt
  *   T <x> <l1> <b1> <l2> <b2>   transfer x: request body (length l1, pattern b1; l1 = -1: none, GET) and response body
  *                                (l2 = -1: none, plain 2.04)
  *   N <v0> <v1> ...             network verdict for the i-th datagram emitted by either side:
@@ -19,7 +20,7 @@
 static coap_context_t *sctx, *cctx;
 static coap_session_t *csess;
 static coap_address_t srv_addr;
-static int single, con, cmtu, smtu, cszx, sszx, gap;
+static int single, con, cmtu, smtu, cszx, sszx, gap, slow;
 static struct xfer { int x, l1, b1, l2, b2; uint8_t tok[2]; int submitted; } T[MAXT];
 static int nT;
 static char verdicts[4096];
@@ -216,6 +217,7 @@ static void on_tx(int node, coap_session_t *s, const sim_dgram_t *dg, sim_verdic
   if (hase) arr(etag, el); else fputs("[-1]", sim_trace);
   fprintf(sim_trace, ",\"v\":\"%c\"}\n", vc);
   (void)node;
+  if (slow > 0) v->delay[0] = (uint32_t)slow;          /* a slow network is not a fault: nothing is lost or duplicated, and the delay is below ACK_TIMEOUT */
   switch (vc) {
   case 'd': v->copies = 0; break;
   case '2': v->copies = 2; v->delay[0] = 0; v->delay[1] = 5; break;
@@ -349,6 +351,7 @@ int main(int argc, char **argv) {
       cszx = (p = strstr(line, "cszx=")) ? atoi(p + 5) : -1;
       sszx = (p = strstr(line, "sszx=")) ? atoi(p + 5) : -1;
       gap = (p = strstr(line, "gap=")) ? atoi(p + 4) : 0;
+      slow = (p = strstr(line, "slow=")) ? atoi(p + 5) : 0;
       nT = 0; nverd = 0;
     } else if (line[0] == 'T') {
       if (nT < MAXT && sscanf(line + 1, "%d %d %d %d %d", &T[nT].x, &T[nT].l1, &T[nT].b1, &T[nT].l2, &T[nT].b2) == 5) {
